@@ -538,7 +538,12 @@ class Producer(object):
                     # We check d.called since the request could have been
                     # cancelled while we waited for the response
                     if not d.called:
-                        d.callback(result)
+                        if isinstance(result, BaseException):
+                            # A broker error for this payload: the caller
+                            # must see a failure, not a successful result
+                            d.errback(result)
+                        else:
+                            d.callback(result)
 
         def _do_retry(payloads):
             # We use 'fail_on_error=False' because we want our client to
